@@ -240,6 +240,142 @@ class Ctx:
             return self.norm(ir.subst(shape, lambda x: p2a.get(x)))
         return None
 
+    # ---- bit view of whole-vector assignments -------------------------------------------------------------------
+    def project(self, e, k, depth=0):
+        """Bit k of a vector-valued expression, as an expression over bits: &, |, ^, ~ and Mux distribute; a signal X gives
+        X[k]; s.replicate(n) gives s; a constant 0 gives 0; a local combinational wire gives the bit-k view of its own
+        drivers (priority order as nested Mux, unassigned = bit k of its default; a wire created with Signal.like(model)
+        starts with the model's init -- A7).  None when something else occurs."""
+        if depth > 6:
+            return None
+        e = self.norm(e)
+        kx = e[0]
+        if kx == 'const':
+            return ('const', 0) if e[1] in (0, False) else None
+        if kx == 'nary' and e[1] in ('&', '|', '^'):
+            parts = [self.project(x, k, depth + 1) for x in e[2]]
+            return None if any(p is None for p in parts) else ('nary', e[1], tuple(parts))
+        if kx == 'un' and e[1] == '~':
+            p_ = self.project(e[2], k, depth + 1)
+            return None if p_ is None else ('un', '~', p_)
+        if kx == 'call' and e[1] == ('name', 'Mux') and len(e[2]) == 3:
+            a, b = self.project(e[2][1], k, depth + 1), self.project(e[2][2], k, depth + 1)
+            return None if a is None or b is None else ('call', ('name', 'Mux'), (e[2][0], a, b), ())
+        if kx == 'call' and e[1][0] == 'attr' and e[1][2] == 'replicate' and self.w.bit(e[1][1]):
+            return e[1][1]
+        if kx in ('phi', 'ifexp'):
+            a, b = self.project(e[2], k, depth + 1), self.project(e[3], k, depth + 1)
+            return None if a is None or b is None else ('phi', e[1], a, b)
+        if kx == 'sig':
+            return self.project_wire(e, k, depth)
+        if kx in ('attr', 'sub') and not (kx == 'sub' and e[2][0] == 'slice'):
+            return ('sub', e, k)
+        return None
+
+    def project_wire(self, s, k, depth):
+        sig = self.t.sigs.get(s[1])
+        if sig is None:
+            return None
+        whole = [d_ for d_ in self.t.drivers if self.norm(d_.target) == s]
+        bits = [d_ for d_ in self.t.drivers if self.norm(d_.target)[0] == 'sub' and self.norm(d_.target)[1] == s]
+        if any(d_.domain != 'comb' for d_ in whole + bits):
+            return ('sub', s, k)                        # a register: its bit is a state bit
+        if bits and not whole:
+            # W[i] <= v inside the loop over i: in iteration k the wire's bit k is v
+            mine = [d_ for d_ in bits if self.norm(d_.target)[2] == k]
+            if len(mine) == 1 and len(bits) == 1 and not mine[0].dsl:
+                return self.norm(mine[0].value)
+            return None
+        if not whole:
+            return None
+        # default: init= of the constructor, the model's init for Signal.like(model), else 0
+        ctor = sig.ctor
+        kws = dict(ctor[3]) if ctor[0] == 'call' else {}
+        dflt = None
+        if 'init' in kws or 'reset' in kws:
+            iv = self.norm(kws.get('init', kws.get('reset')))
+            dflt = ('const', 0) if iv == ('const', 0) else self.norm(('sub', iv, k))
+            if dflt != ('const', 0):
+                self.w.extra.add(ir.show(dflt))
+        elif ctor[0] == 'call' and ctor[1] == ('attr', ('name', 'Signal'), 'like') and ctor[2]:
+            model = self.norm(ctor[2][0])
+            dflt = self.model_init_bit(model, k)
+        else:
+            dflt = ('const', 0)
+        if dflt is None:
+            return None
+        out = dflt
+        for d_ in sorted(whole, key=lambda x: (tuple(c_.v if hasattr(c_, "v") else c_ for c_ in x.order), x.seqno)):
+            conds = []
+            for fr in d_.dsl:
+                if fr[0] == 'if':
+                    conds.append(self.norm(fr[1]))
+                else:
+                    return None
+            v = self.project(d_.value, k, depth + 1)
+            if v is None:
+                return None
+            if conds:
+                cnd = conds[0] if len(conds) == 1 else ('nary', '&', tuple(conds))
+                if not all(self.w.bit(x) for x in conds):
+                    return None
+                out = ('call', ('name', 'Mux'), (cnd, v, out), ())
+            else:
+                out = v
+        return out
+
+    def model_init_bit(self, model, k):
+        """Bit k of the reset value of the signal a wire was created `like`."""
+        if model[0] == 'attr' and model[1] == ('name', 'self') and self.fi.cls is not None:
+            for kcls in [self.fi.cls] + list(self.idx.bases_of(self.fi.cls)):
+                st = find_init_assign(kcls, model[2], self.idx)
+                if st is not None and isinstance(st.value, ast.Call) and ast.unparse(st.value.func) == "Signal":
+                    iv = next((kw.value for kw in st.value.keywords if kw.arg in ("init", "reset")), None)
+                    if iv is None or (isinstance(iv, ast.Constant) and iv.value in (0, False)):
+                        return ('const', 0)
+                    b_ = self.norm(('sub', ir.from_ast(iv, {}), k))
+                    self.w.extra.add(ir.show(b_))
+                    return b_
+            return None
+        # a member of a port / another interface: declared members start at 0 unless the declaration says otherwise (A7)
+        if model[0] == 'attr':
+            return ('const', 0)
+        return None
+
+    def project_cond(self, e, k):
+        """A guard over whole vectors seen from bit k: X.any() / X != 0 is X[k] | <some other bit of X>."""
+        def f(x):
+            if x[0] == 'cmp' and x[1] == '!=' and x[3] == ('const', 0) and not self.w.bit(x[2]):
+                p_ = self.project(x[2], k)
+                if p_ is None:
+                    return None
+                other = ('name', f"other_bits<{ir.show(x[2])[:40]}>")
+                self.w.extra.add(ir.show(other))
+                return ('nary', '|', (p_, other))
+            return None
+        return self.norm(ir.subst(self.norm(e), f))
+
+    def bit_view(self, target, k):
+        """Pseudo-drivers of target[k] obtained from the whole-vector drivers of target; None if some value cannot be projected."""
+        T = self.norm(target)
+        out = []
+        for d_ in self.drivers_of(T):
+            v = self.project(d_.value, k)
+            if v is None:
+                return None
+            frames = []
+            for fr in d_.dsl:
+                if fr[0] == 'if':
+                    frames.append(('if', self.project_cond(fr[1], k)) + tuple(fr[2:]))
+                elif fr[0] == 'elif':
+                    frames.append(('elif', self.project_cond(fr[1], k), tuple(self.project_cond(p_, k) for p_ in fr[2])) + tuple(fr[3:]))
+                elif fr[0] == 'else':
+                    frames.append(('else', tuple(self.project_cond(p_, k) for p_ in fr[1])) + tuple(fr[2:]))
+                else:
+                    frames.append(fr)
+            out.append(dsl.Driver(d_.domain, ('sub', T, k), v, tuple(frames), d_.gen, d_.order, d_.lineno, d_.seqno))
+        return out
+
     def wire_default(self, s, depth=0):
         """Reset / default value of a local signal: init= of its constructor, the default of the signal it is `like`, else 0."""
         sig = self.t.sigs.get(s[1])
